@@ -1576,3 +1576,52 @@ def no_stale_loop_locals(chk, repo, rid, qual, loop_pick, what, floor=1, reviewe
     chk.ob(rid, f"{f.name}: every per-element local is assigned before it is read in each iteration", repo.loc(f, lp), not stale,
            f"{sorted(stale)} can be read in an iteration that did not assign it: the element is processed with the value left behind by the previous element",
            key=f"{f.qual}::stale-locals", fn=f.qual)
+
+
+def fresh_buffer_per_combination(chk, repo, rid):
+    """R-FRESH: every W>F combination is applied to the ORIGINAL peptide.  In VariantPeptideDict.translational_modification the object
+    that the substitutions of one combination are written into (by item assignment, or rebuilt and re-bound) is created inside the loop
+    over the combinations - a buffer created outside and overwritten by index carries the substitutions of earlier combinations."""
+    chk.rule(rid, 'R-FRESH: the peptide buffer a W>F combination is applied to is created per combination', 1)
+    f = repo.func('svgraph.VariantPeptideDict:VariantPeptideDict.translational_modification')
+    chk.uses(f)
+    comb_loops = [l for l in ast.walk(f.node) if isinstance(l, ast.For) and any(isinstance(c, ast.Call) and call_name(c) == 'combinations' for c in ast.walk(l.iter))]
+    if len(comb_loops) != 1:
+        chk.undecided(rid, 'W>F combinations', f.where, f"{len(comb_loops)} loops over itertools.combinations(...) found", key=f.qual + '::fresh-buffer', fn=f.qual)
+        return
+    lp = comb_loops[0]
+    bad = []
+    for n in ast.walk(lp):
+        if isinstance(n, ast.Subscript) and isinstance(n.ctx, ast.Store) and isinstance(n.value, ast.Name):
+            x = n.value.id
+            created_inside = any(isinstance(a, (ast.Assign, ast.AnnAssign)) and any(isinstance(t, ast.Name) and t.id == x and isinstance(t.ctx, ast.Store)
+                                                                                   for t in ast.walk(a.targets[0] if isinstance(a, ast.Assign) else a.target))
+                                 for a in ast.walk(lp))
+            if not created_inside:
+                bad.append(f"`{unparse(repo.enclosing_stmt(n))[:60]}` writes into `{x}`, which is created outside the loop over the combinations")
+    chk.ob(rid, 'item assignments inside the combination loop go to an object created inside it', repo.loc(f, lp), not bad,
+           '; '.join(bad[:2]) + ': each combination starts from the result of the previous ones (forms that keep an earlier W are never produced, labels name too few W2F ids)',
+           key=f.qual + '::fresh-buffer', fn=f.qual)
+
+
+def iterable_param_once(chk, repo, rid, qual):
+    """R-ONESHOT: a parameter annotated Iterable / Iterator may be a generator; a function that iterates it more than once (two loops,
+    a loop and a comprehension, list() twice) sees nothing the second time."""
+    chk.rule(rid, 'R-ONESHOT: a parameter declared Iterable is iterated at most once', 1)
+    f = repo.func(qual)
+    chk.uses(f)
+    n_inst = 0
+    for a in f.node.args.args + f.node.args.kwonlyargs:
+        ann = unparse(a.annotation) if a.annotation is not None else ''
+        if not ann.startswith(('Iterable', 'Iterator', 'typing.Iterable', 'typing.Iterator')):
+            continue
+        n_inst += 1
+        uses = [n for n in ast.walk(f.node) if (isinstance(n, (ast.For, ast.comprehension)) and isinstance(n.iter, ast.Name) and n.iter.id == a.arg)
+                or (isinstance(n, ast.Call) and isinstance(n.func, ast.Name) and n.func.id in ('list', 'tuple', 'sorted', 'set', 'sum', 'any', 'all', 'max', 'min')
+                    and n.args and isinstance(n.args[0], ast.Name) and n.args[0].id == a.arg)]
+        rebound = any(isinstance(n, ast.Name) and n.id == a.arg and isinstance(n.ctx, ast.Store) for n in ast.walk(f.node))
+        chk.ob(rid, f"{f.name}: `{a.arg}` ({ann}) is consumed once", f.where, len(uses) <= 1 or rebound,
+               f"`{a.arg}` is declared {ann} but iterated {len(uses)} times in {f.name}: a generator argument is exhausted by the first pass and the later pass sees nothing "
+               "(a header with no records)", key=f"{f.qual}::oneshot::{a.arg}", fn=f.qual)
+    if not n_inst:
+        chk.undecided(rid, f"{f.name}: Iterable parameters", f.where, 'no parameter annotated Iterable / Iterator', key=f"{f.qual}::oneshot", fn=f.qual)
